@@ -66,10 +66,10 @@ Qed.
 (* ---------- closed forms of the three kinds of atoms ---------- *)
 
 Lemma eval_expr_snoc e v ms m d s :
-  eval_expr e v ms = Some (d, s) -> eval_expr e v (ms ++ [m]) = apply_mod m (d, s).
+  eval_expr e v ms = Some (d, s) -> eval_expr e v (ms ++ [m]) = apply_mod e m (d, s).
 Proof.
   unfold eval_expr. destruct (e v); rewrite apply_mods_app; intros ->; cbn [apply_mods];
-    destruct (apply_mod m (d, s)); reflexivity.
+    destruct (apply_mod e m (d, s)); reflexivity.
 Qed.
 
 Lemma eval_expr_snoc_none e v ms m :
@@ -170,6 +170,8 @@ Section Core.
   Let from := from_shape neg from_empty v (pms ++ [last_mod]).
   Let to := CCmp (LExpr v (u_mods add_u ++ cmp_ms)) (Bool.eqb neg positive) (rhs_leaf quoted w).
 
+  (* the pattern has no nested reference: it is matched as written *)
+  Hypothesis Hpat : expand_pat e pat = Some pat.
   Hypothesis Hkey_match : forall s, wordlike s -> str_match s pat = str_eqb (key s) w.
   Hypothesis Hkey_nil : key [] = [].
   Hypothesis Hw_ne : w <> [].
@@ -199,7 +201,7 @@ Section Core.
     set (res := if positive then (if m then s else []) else (if m then [] else s)).
     assert (Hres : eval_expr e v (pms ++ [last_mod]) = Some (d, res)).
     { rewrite (eval_expr_snoc e v pms last_mod d s Hev). subst last_mod res.
-      destruct positive; cbn [apply_mod]; rewrite filter_word by exact Hs; rewrite Hm.
+      destruct positive; cbn [apply_mod]; rewrite Hpat; rewrite filter_word by exact Hs; rewrite Hm.
       - destruct m; [|rewrite andb_false_r; reflexivity]. rewrite andb_true_r. destruct s; reflexivity.
       - destruct m; [rewrite andb_false_r; reflexivity|]. rewrite andb_true_r. destruct s; reflexivity. }
     assert (Hres_word : wordlike res).
